@@ -719,7 +719,10 @@ def main():
         rec.pop('_info', None); rec.pop('_text', None)
     for k in knowns:
         log('KNOWN-FINDING: property=%s %s' % (pid, re.sub(r'^finding:\s*property=\S+\s*', '', k['entry'])))
+    shown = set()
     for v in violations:
+        if (v['replay'], v['desc']) in shown: continue
+        shown.add((v['replay'], v['desc']))
         log('VIOLATION property=%s replay=%s  (%s: %s)' % (pid, v['replay'], v['obligation'], v['desc']))
     for u in ub_notes:
         log('UB-NOTE (not confirmed natively, not a violation): %s' % u['desc'])
